@@ -215,6 +215,10 @@ pub(crate) mod verif_c01 {
             } else if tn == "f32" && std::mem::size_of_val(v) == 4 {
                 let x = unsafe { *(v as *const T as *const f32) };
                 log(Ev::CollectF32(x.to_bits()));
+            } else if tn == "bool" && std::mem::size_of_val(v) == 1 {
+                // Display of a bool is exactly "true" / "false": equivalent to serialize_str of that literal
+                let x = unsafe { *(v as *const T as *const bool) };
+                return Sink.serialize_str(if x { "true" } else { "false" });
             } else if tn.starts_with("base64::display::Base64Display") {
                 log(Ev::CollectBase64);
             } else {
